@@ -30,12 +30,25 @@ TOL = 1e-9
 
 
 def _close(a, b, scale=None):
+    """max|a-b| <= TOL*scale on the finite entries; the pattern of non-finite entries (nan, +inf, -inf) must be identical
+    (equal NaNs / equal infinities are not a difference)"""
     a = np.asarray(a)
     b = np.asarray(b)
     if a.shape != b.shape:
         return False, float("inf")
     if a.size == 0:
         return True, 0.0
+    fa, fb = np.isfinite(a), np.isfinite(b)
+    if not (fa == fb).all():
+        return False, float("inf")
+    if not fa.all():
+        na, nb_ = a[~fa], b[~fb]
+        same = (np.isnan(na) == np.isnan(nb_)).all() and (np.where(np.isnan(na), 0, na) == np.where(np.isnan(nb_), 0, nb_)).all()
+        if not same:
+            return False, float("inf")
+        a, b = a[fa], b[fb]
+        if a.size == 0:
+            return True, 0.0
     s = max(1.0, float(np.abs(b).max()) if scale is None else scale)
     d = float(np.abs(a - b).max())
     return d <= TOL * s, d
@@ -176,7 +189,7 @@ def scenario(cfg, with_reference=False):
     R["irmesh_freq"] = md["frequencies"]
     ph.run_total_dos(use_tetrahedron_method=True)
     R["tdos"] = ph.get_total_dos_dict()["total_dos"]
-    ph.run_thermal_properties(t_min=0, t_max=400, t_step=100)
+    ph.run_thermal_properties(t_min=0, t_max=400, t_step=100, cutoff_frequency=1e-3)
     tp = ph.get_thermal_properties_dict()
     R["tp"] = [tp["free_energy"], tp["entropy"], tp["heat_capacity"]]
     # tetrahedron mesh iterator (tetrahedra_frequencies) and the tetrahedron method directly
@@ -230,7 +243,7 @@ def scenario(cfg, with_reference=False):
             R["ref:ddm"] = ddm.d_dynamical_matrix.copy()
         d2f.run(lang="Py")
         R["ref:d2f_fc"] = d2f.force_constants.copy()
-        tpo = ThermalProperties(ph.mesh, classical=False)
+        tpo = ThermalProperties(ph.mesh, classical=False, cutoff_frequency=1e-3)
         tpo.set_temperature_range(t_min=0, t_max=400, t_step=100)
         tpo.run(lang="Py")
         R["ref:tp"] = list(tpo.thermal_properties[1:4])
